@@ -13,6 +13,7 @@ import (
 	"encoding/hex"
 	"fmt"
 	"io"
+	"net"
 	"net/netip"
 	"testing"
 
@@ -20,6 +21,7 @@ import (
 	"github.com/daeuniverse/dae/common/consts"
 	"github.com/daeuniverse/dae/component/outbound/dialer"
 	"github.com/daeuniverse/dae/component/routing/domain_matcher"
+	dnsmessage "github.com/miekg/dns"
 	"github.com/sirupsen/logrus"
 	"pgregory.net/rapid"
 )
@@ -372,7 +374,7 @@ func c19CheckLpm(t *rapid.T, k *ksSim) (string, func() any, []string) {
 		probes = append(probes, flip(prefix.Addr(), bits-1)) // last prefix bit flipped: outside
 	}
 	if bits < max {
-		probes = append(probes, flip(prefix.Addr(), bits))   // first host bit flipped: inside
+		probes = append(probes, flip(prefix.Addr(), bits)) // first host bit flipped: inside
 		probes = append(probes, flip(prefix.Addr(), max-1))
 	}
 	probes = append(probes, c19GenAddr(t, "probe_same", v6), c19GenAddr(t, "probe_other", !v6))
@@ -460,7 +462,34 @@ func c19CheckDomain(t *rapid.T, k *ksSim) (string, func() any, []string) {
 	}
 	copy(val.Bitmap[:], bitmap)
 	a16 := addr.As16()
+	// key and value as the control plane derives them from a cached DNS answer: the
+	// production buildDomainRoutingOwnerSnapshot on an A/AAAA record in the forms the
+	// DNS library produces (4-byte A from the wire, 16-byte A built by net.ParseIP).
+	var rr dnsmessage.RR
+	form := "aaaa16"
+	if addr.Unmap().Is4() {
+		ip4 := addr.Unmap().As4()
+		form = "a4"
+		aip := net.IP(ip4[:])
+		if rapid.Bool().Draw(t, "a_record_16_byte_form") {
+			aip, form = aip.To16(), "a16"
+		}
+		rr = &dnsmessage.A{Hdr: dnsmessage.RR_Header{Name: "www.example.com.", Rrtype: dnsmessage.TypeA, Class: dnsmessage.ClassINET, Ttl: 60}, A: aip}
+	} else {
+		rr = &dnsmessage.AAAA{Hdr: dnsmessage.RR_Header{Name: "www.example.com.", Rrtype: dnsmessage.TypeAAAA, Class: dnsmessage.ClassINET, Ttl: 60}, AAAA: net.IP(a16[:])}
+	}
+	snap, serr := buildDomainRoutingOwnerSnapshot(&DnsCache{DomainBitmap: bitmap, Answer: []dnsmessage.RR{rr}})
 	gkey := common.Ipv6ByteSliceToUint32Array(a16[:])
+	if serr != nil || len(snap.ips) > 1 || (len(snap.ips) == 0 && !addr.Unmap().IsUnspecified()) {
+		// (answers of 0.0.0.0 / :: may be left out of the table: then the bare encoder keys the probe)
+		t.Fatalf("buildDomainRoutingOwnerSnapshot(%s record %v): err=%v keys=%d, want exactly one key", form, addr, serr, len(snap.ips))
+	}
+	for kk := range snap.ips {
+		gkey = kk
+	}
+	if snap.bitmap != val {
+		t.Fatalf("buildDomainRoutingOwnerSnapshot changed the bitmap")
+	}
 	goKey, goVal := ksMarshal(&gkey), ksMarshal(&val)
 	mi := c19MapInfo(t, k, "domain_routing_map")
 	if int(mi.KeySize) != len(goKey) || int(mi.ValueSize) != len(goVal) {
